@@ -73,6 +73,13 @@ CHECKS["C14"] = dict(
     ref="2/C14",
 )
 
+CHECKS["C13"] = dict(
+    technique="exhaustive enumeration of (base, rel) path pairs observed through the dependency queries + reference-model monitor of multi-file groups rendered on the real runtime",
+    text="(A) every pair of a referrer path and a reference with up to 3 (quick) / 4 (thorough) segments over {a, b, ., .., empty} x leading slash x suffix is compiled and the targets reported by direct_dependencies / script_dependencies are compared with a POSIX-like reference resolver (2.4 M pairs thorough); (B) four-file groups with per-file sentinels, overlapping template names, relative/absolute/suffixed spellings, external scripts with require, all insertion orders and import_group splits are rendered on the real runtime and compared with the reference renderer (local > later import > earlier import).",
+    note="Trusted: the reference resolver and renderer. Pairs with empty segments or a referrer ending in `.`/`..` are judged for internal consistency only (the property text is silent). js_bindings.rs (wasm) cannot execute in this image; the same functions are exercised through the Rust API.",
+    ref="2/C13",
+)
+
 NOT_YET = {}
 
 
